@@ -7,6 +7,11 @@ import vlib
 def run(ctx):
     ctx.mc("Logger", "MC_Logger.tla", "MC_Logger.cfg", workers=4)
     scen = ctx.gen("Services", "Services.tla", "Gen_C15.cfg" if ctx.quick else "Gen_C15_thorough.cfg", "svc", workers=4)
+    # annotator-centred histories: lookups by identifier and index, assignments that cannot work, a destroyed model
+    scen2 = ctx.gen("Services", "Services.tla", "Gen_C15_annotator.cfg", "svcann", workers=1, timeout=600)
+    with open(scen, "a") as out:
+        for line in open(scen2):
+            out.write(line)
     ctx.sample(scen, 3)
     trace = ctx.execute("services", scen)
     ctx.validate("Services", "Trace_Services.tla", "Trace_C15.cfg", trace, "services", parallel=12)
